@@ -26,7 +26,7 @@ INT_S = {"subtomo_num", "motl_idx"}
 TOKEN_KINDS = ["score", "tomo_id", "object_id", "phi", "psi", "theta", "class"]      # token id = 7 * particle + position + 1
 
 INVS = ["C04_Renaming", "C04_Halfset", "C04_FileRoundTrip"]
-PROPS = ["C04_MotlIdx", "C04_UpdateCoord", "C04_OrderKept"]
+PROPS = ["C04_MotlIdx", "C04_UpdateCoord", "C04_OrderKept", "C04_EditSurvives"]
 
 DEMO = os.environ.get("VERIF_C04_DEMO", "")          # binding demonstration switch (never set in normal runs)
 
@@ -43,21 +43,25 @@ def cfg(spec_lines, U, emit=True):
 class Gamma:
     """value token -> real.  Token t (1-based) has kind TOKEN_KINDS[(t-1) % 7]; distinct tokens get distinct reals."""
 
-    def __init__(self, rng, ntokens, U):
+    def __init__(self, rng, ntokens, U, sidk=0):
         self.U = U
+        # subtomogram numbers are sidk * 10^9 + (abstract number < 10^9): composite ids beyond 2^31 (TLC's integers are
+        # 32-bit, so the specification keeps the small part); 10^9 is even, the parity is that of the abstract number
+        self.sidbase = int(sidk) * 10 ** 9
         self.val = {}
         used = set()
         for t in range(1, ntokens + 1):
             kind = TOKEN_KINDS[(t - 1) % 7]
             while True:
                 if kind in ("tomo_id", "object_id", "class"):
-                    v = float(rng.randint(1, 40 * ntokens + 50))
+                    v = float(rng.randint(1, 40 * ntokens + 50)) if rng.random() < 0.88 else \
+                        float(rng.randint(2 ** 31, 8900000000))          # numbering values beyond the int32 range
                 elif kind == "score":
                     v = rng.choice([rng.uniform(-1, 1), rng.uniform(0, 1), rng.uniform(-500, 500), round(rng.uniform(0, 1), 3)])
                 else:
                     v = rng.choice([rng.uniform(-360, 360), rng.uniform(-180, 180), float(rng.randint(-360, 360)),
                                     round(rng.uniform(0, 180), 2)])
-                if v not in used and v != 0.0 and abs(v) < 1e7 and not su.near_rounding_tie(v) \
+                if v not in used and v != 0.0 and (abs(v) < 1e7 or v == int(v)) and not su.near_rounding_tie(v) \
                         and round(v, 6) not in used:
                     break
             used.add(v)
@@ -72,14 +76,16 @@ class Gamma:
         if field in LATTICE_M:
             return a / self.U
         if field == "subtomo_id":
-            return float(a)
+            return float(self.sidbase + a)
         return self.val[a]
 
-    def sg_value(self, col, a):
+    def sg_value(self, col, a, row=None):
         if col == "halfset":
             return a
         if col in LATTICE_S:
             return a / self.U
+        if col == "subtomo_num" or (col == "motl_idx" and row is not None and a == row["subtomo_num"]):
+            return float(self.sidbase + a)
         if col in INT_S:
             return float(a)
         return self.val[a]
@@ -102,8 +108,10 @@ class Gamma:
             k = round(r)
             tol = 1e-9 if self.U == 8 else 1e-6
             return int(k) if abs(r - k) <= tol * max(1.0, abs(r)) else ("off-lattice", f)
-        if kind == "int":
-            return int(f) if f == int(f) else ("non-integer", f)
+        if kind in ("int", "sid"):
+            if f != int(f):
+                return ("non-integer", f)
+            return int(f) - (self.sidbase if kind == "sid" else 0)
         t = self.inv.get(f)
         if t is None and loose:
             near = [k for k, w in self.val.items() if abs(w - f) <= 1e-12 * max(abs(w), 1e-300)]
@@ -113,11 +121,13 @@ class Gamma:
 
 
 def motl_kind(field):
-    return "lat" if field in LATTICE_M else "int" if field == "subtomo_id" else "tok"
+    return "lat" if field in LATTICE_M else "sid" if field == "subtomo_id" else "tok"
 
 
-def sg_kind(col):
-    return "str" if col == "halfset" else "lat" if col in LATTICE_S else "int" if col in INT_S else "tok"
+def sg_kind(col, reset=False):
+    if col == "motl_idx":
+        return "int" if reset else "sid"          # 1..N after a reset, the subtomogram number otherwise
+    return "str" if col == "halfset" else "lat" if col in LATTICE_S else "sid" if col == "subtomo_num" else "tok"
 
 
 def build_motl_df(rows, g, rng):
@@ -147,7 +157,7 @@ def column_order(rng):
 
 def build_sg_df(sgrows, g, rng):
     import pandas as pd
-    data = {c: [g.sg_value(c, s[c]) for s in sgrows] for c in SG_COLUMNS}
+    data = {c: [g.sg_value(c, s[c], s) for s in sgrows] for c in SG_COLUMNS}
     order = list(SG_COLUMNS)
     if rng.random() < 0.5:
         rng.shuffle(order)                      # the STOPGAP table is addressed by column name
@@ -166,7 +176,7 @@ def independent_sg_file(path, sgrows, g, rng):
         for s in sgrows:
             cells = []
             for c in SG_COLUMNS:
-                v = g.sg_value(c, s[c])
+                v = g.sg_value(c, s[c], s)
                 cells.append(v if c == "halfset" else (str(int(v)) if c in INT_S and rng.random() < 0.5 else repr(float(v))))
             fh.write(rng.choice(["  ", "\t", " "]).join(cells) + "\n")
         fh.write("\n")
@@ -192,7 +202,7 @@ def compare_motl(ctx, df, expected, g, clause, case, sig, what, loose=False):
     return True
 
 
-def compare_sg(ctx, sg_df, expected, g, case, sig, what=""):
+def compare_sg(ctx, sg_df, expected, g, case, sig, what="", reset=False):
     if sg_df.shape[0] != len(expected):
         ctx.fail("C04_OrderKept", "%sSTOPGAP table has %d rows, expected %d" % (what, sg_df.shape[0], len(expected)), case, sig)
         return False
@@ -204,7 +214,7 @@ def compare_sg(ctx, sg_df, expected, g, case, sig, what=""):
         vals = sg_df[c].tolist()
         clause = "C04_Halfset" if c == "halfset" else "C04_MotlIdx" if c == "motl_idx" else "C04_Renaming"
         for i, e in enumerate(expected):
-            a = g.abstract(sg_kind(c), vals[i])
+            a = g.abstract(sg_kind(c, reset), vals[i])
             if a != e[c]:
                 ctx.fail(clause, "%sparticle %d column %s = %r (abstract %r), expected abstract %r" % (
                     what, i + 1, c, vals[i], a, e[c]), case, dict(sig, field=c))
@@ -342,7 +352,8 @@ class Runner:
             fcase, fsig = case, sig
         if case["op"]["name"] == "export":
             compare_sg(ctx, got, case["sg"], g, fcase, fsig, what="" if later is None else
-                       "result of an earlier conversion, judged after a later conversion of an equally long list: ")
+                       "result of an earlier conversion, judged after a later conversion of an equally long list: ",
+                       reset=case["op"]["reset"])
         else:
             updated = case["variant"] % 5 == 4
             compare_motl(ctx, got, case["backu"] if updated else case["back"], g, "C04_UpdateCoord" if updated else "C04_Renaming",
@@ -352,7 +363,7 @@ class Runner:
 
     def gamma_for(self, case):
         rng = __import__("random").Random(case["gseed"])
-        return Gamma(rng, ntokens_of(case["pre"]), self.U), rng
+        return Gamma(rng, ntokens_of(case["pre"]), self.U, case.get("sidk", 0)), rng
 
     def run_case(self, case):
         """case: {kind: 'tr', U, pre, op, rows, sg, sgin, back, gseed, variant}"""
@@ -417,10 +428,80 @@ class Runner:
                     loaded["cols"]["psi"], loaded["cols"]["theta"] = loaded["cols"]["theta"], loaded["cols"]["psi"]
             os.remove(path)
             self.traces.append(({"rows": case["pre"], "hist": hist or [], "update": op["update"], "reset": op["reset"],
+                                 "sidk": case.get("sidk", 0),
                                  "gamma": g.canon_table(), "spell": spelling(), "lines": lines, "loaded": loaded},
                                 case, sig, lerr))
+        elif name in ("edit", "reexport"):
+            self.run_object_case(case, g, rng, sig)
         else:
             raise core.MachineryError("unknown op %r" % (op,))
+
+    def run_object_case(self, case, g, rng, sig):
+        """A list created from STOPGAP form (file or STOPGAP-layout table) is edited; 'edit' judges the edited object,
+        'reexport' hands the OBJECT itself on: stopgap2emmotl(obj), StopgapMotl(obj), StopgapMotl(obj).write_out."""
+        from cryocat import cryomotl
+        ctx = self.ctx
+        op = case["op"]
+        variant = case["variant"]
+        from_file = op["from"] == "loaded"
+        sig = dict(sig, kind=op["kind"], created_from="file" if from_file else "table")
+
+        def make_and_edit():
+            if from_file:
+                path = os.path.join(ctx.workdir, "sgobj_%d.star" % os.getpid())
+                independent_sg_file(path, case["sgin"], g, rng)
+                obj = cryomotl.StopgapMotl(path)
+            else:
+                obj = cryomotl.StopgapMotl(motlutil.vary_index(build_sg_df(case["sgin"], g, rng), variant // 3))
+            if op["kind"] == "update":
+                obj.update_coordinates()
+            else:
+                newcls = g.val[case["back"][0]["class"]]
+                if variant % 2 == 0:
+                    obj.df["class"] = newcls
+                else:
+                    obj.fill({"class": newcls})
+            return obj
+        obj, err = core.call_guarded(make_and_edit)
+        if err is not None:
+            ctx.fail("call_raises", "creating / editing a list from STOPGAP form: %s" % err, case, sig)
+            return
+        if op["name"] == "edit":
+            compare_motl(ctx, obj.df, case["back"], g, "C04_EditSurvives", case, sig, "edited list", loose=from_file)
+            return
+        # the object itself is handed on
+        form = variant % 3
+
+        def convert():
+            if form == 0:
+                return cryomotl.stopgap2emmotl(obj).df
+            if form == 1:
+                return cryomotl.StopgapMotl(obj).df
+            return cryomotl.Motl.load(obj).df
+        res, err = core.call_guarded(convert)
+        if err is not None:
+            ctx.fail("call_raises", "converting the edited object: %s" % err, case, dict(sig, api=form))
+            return
+        compare_motl(ctx, res, case["back"], g, "C04_EditSurvives", case, dict(sig, api=form),
+                     "list obtained from the edited object", loose=from_file)
+        path = os.path.join(ctx.workdir, "sgobjout_%d_%d.star" % (os.getpid(), self.n))
+        _, err = core.call_guarded(lambda: cryomotl.StopgapMotl(obj).write_out(path, reset_index=op["reset"]))
+        if err is not None:
+            ctx.fail("call_raises", "StopgapMotl(object).write_out: %s" % err, case, sig)
+            return
+        lines = su.file_lines(path)
+        back, lerr = core.call_guarded(api_load, path, (variant // 2) % 2)
+        loaded = {"ok": lerr is None, "n": 0, "cols": {f: [] for f in FIELDS14}}
+        if lerr is None:
+            loaded["n"] = int(back.shape[0])
+            for f in FIELDS14:
+                loaded["cols"][f] = [su.canon_of_number(x) for x in back[f].tolist()] if f in back.columns else []
+        os.remove(path)
+        # the written file must hold the EDITED list (case["back"]); values created from a file are within parser slack of
+        # the token reals, which rounding to 6 decimals in the trace absorbs
+        self.traces.append(({"rows": case["back"], "hist": [], "update": False, "reset": op["reset"], "sidk": case.get("sidk", 0),
+                             "gamma": g.canon_table(), "spell": spelling(), "lines": lines, "loaded": loaded},
+                            case, dict(sig, op="reexport_write"), lerr))
 
     def validate_files(self, name):
         ctx = self.ctx
@@ -454,8 +535,11 @@ class Runner:
         self.traces = []
 
 
-def case_from_tr(tr, U, gseed, variant, pre=None, hist=None):
-    return {"kind": "tr", "U": U, "hist": hist or [], "pre": pre if pre is not None else tr["pre"], "op": tr["op"], "rows": tr["rows"],
+SIDK = [0, 0, 0, 3, 0, 8, 2, 0]          # 10^9-multiples added to the subtomogram numbers (0: small numbers)
+
+
+def case_from_tr(tr, U, gseed, variant, pre=None, hist=None, sidk=None):
+    return {"kind": "tr", "U": U, "hist": hist or [], "sidk": SIDK[gseed % len(SIDK)] if sidk is None else sidk, "pre": pre if pre is not None else tr["pre"], "op": tr["op"], "rows": tr["rows"],
             "sg": tr["sg"], "sgin": tr["sgin"], "back": tr["back"], "backu": tr["backu"], "gseed": gseed, "variant": variant}
 
 
@@ -529,18 +613,21 @@ def run_seeded(ctx, U, sizes, tag):
     with open(path, "w") as fh:
         for n in sizes:
             rows = gen_list(ctx.rng, n, U)
-            c = {"rows": rows, "path": ctx.rng.choice(["mem", "file", "file"]), "reset": ctx.rng.random() < 0.5,
-                 "update": ctx.rng.random() < 0.5, "hist": gen_hist(ctx.rng, [p["class"] for p in rows])}
+            c = {"rows": rows, "path": ctx.rng.choice(["mem", "file", "file", "obj", "fobj"]), "reset": ctx.rng.random() < 0.5,
+                 "update": ctx.rng.random() < 0.5, "hist": gen_hist(ctx.rng, [p["class"] for p in rows]),
+                 "edit": ctx.rng.choice(["update", "setclass"])}
             cases.append(c)
             fh.write(json.dumps(c) + "\n")
     res = ctx.tlc("StopgapCases", cfg(["INIT CaseInit", "NEXT CaseNext"], U).replace("CONSTANTS", "CONSTANTS\n InitLists = {}"),
                   name="cases_%s" % tag,
                   env={"CASE_FILE": path}, workers=1)
     trs = res.tagged.get("TR", [])
-    if len(trs) != 2 * len(cases):
-        raise core.MachineryError("StopgapCases emitted %d transitions for %d cases" % (len(trs), len(cases)))
+    want = sum(4 if c["path"] in ("obj", "fobj") else 2 for c in cases)
+    if len(trs) != want:
+        raise core.MachineryError("StopgapCases emitted %d transitions, expected %d" % (len(trs), want))
     r = Runner(ctx, U)
-    for k, tr in enumerate(sorted(trs, key=lambda t: (t["cid"], t["op"]["name"] in ("import", "load")))):
+    rank = {"export": 0, "write": 0, "import": 1, "load": 1, "edit": 2, "reexport": 3}
+    for k, tr in enumerate(sorted(trs, key=lambda t: (t["cid"], rank[t["op"]["name"]]))):
         c = cases[tr["cid"] - 1]
         r.run_case(case_from_tr(tr, U, ctx.seed * 100003 + tr["cid"], ctx.seed + tr["cid"] + k, pre=c["rows"],
                                 hist=c["hist"] if tr["op"]["name"] in ("export", "write") else None))
@@ -573,7 +660,7 @@ def run(ctx):
         if not trs:
             raise core.MachineryError("MC_StopgapConv emitted no transition")
         names = {t["op"]["name"] for t in trs}
-        if names != {"export", "import", "write", "load"}:
+        if names != {"export", "import", "write", "load", "edit", "reexport"}:
             raise core.MachineryError("coverage hole: operations explored %s" % sorted(names))
         ctx.exhaustive["L1_small"] = True
         keyed = sorted(trs, key=lambda t: core.stable_hash([ctx.seed, t]))
